@@ -70,7 +70,7 @@ def main(argv):
                             verdicts.append((pid, "SILENT" if not new else "FALSE-ALARM", "; ".join(sorted(new))[:400]))
                     for v in verdicts:
                         results.append((name + "@" + v[0], v[1], v[2]))
-                for p, src in backups:
+                for p, src in reversed(backups):
                     open(p, "w").write(src)
         bad = 0
         for name, verdict, info in results:
